@@ -215,6 +215,23 @@ def info_schema(ctx):
         ctx.check(fedpos == {argpos}, R, "reader: position %d is argument %d of %s" % (i, argpos, m), "", "open passes _Validation position %d as argument(s) %s of %s, expected %d" % (
             i, sorted(fedpos), m, argpos), o.loc(), fn=o.name, key="%s|r-arg|%d" % (R, i))
     ctx.floor(R, "constant-index reads of a _Validation row in open", len(idx), 7)
+    for bb, bt in builder_calls:
+        m = cname(prog, bt).rsplit("::", 1)[-1]
+        if m not in ("range", "foreign_key", "enum_values", "category", "nullable"):
+            continue
+        extra = []
+        for (e, tr, g) in So.bool_facts_at(bb):
+            if not isinstance(tr, bool):
+                continue
+            if "Value::is_null(" in e and tr is False:
+                continue
+            if m == "nullable" and "PartialEq" in e and "s:'Y'" in e and tr is True:
+                continue
+            if "CompoundFile::<F>::exists(" in e or "contains_key(" in e or "BTreeMap::<K, V, A>::is_empty(" in e or "Option>::eq(" in e or "PartialEq" in e and "Option" in e:
+                continue
+            extra.append((e[:70], tr))
+        ctx.check(not extra, R, "reader applies %s() whenever the cells are present" % m, "", "open applies ColumnBuilder::%s only under the extra condition(s) %s: some attribute values that "
+                  "create_table wrote are dropped on reopen" % (m, extra), o.loc(bt["sp"]), fn=o.name, key="%s|guard|%s" % (R, m))
     pair = {"is_nullable": "nullable", "value_range": "range", "foreign_key": "foreign_key", "category": "category", "enum_values": "enum_values"}
     wset = {g for v in wpos.values() for g in v} - {"name"}
     rset = {m for v in rpos.values() for (m, fed) in v}
@@ -292,6 +309,9 @@ def sep1(ctx):
         for b, n, args, t in symcalls(prog, g, S):
             if n.endswith("<impl str>::contains") and ("c:59" in args[1] or "s:';'" in args[1]):
                 guard = True
+                typed = [(e, tr) for (e, op, tr, gg) in S.facts_at(b) if "coltype" in e]
+                ctx.check(not typed, R, "the separator check covers every column type", "", "the enumeration-value check in create_table is only reached for some column types (%s): "
+                          "other columns still get a ';'-joined _Validation.Set cell and reopen with different values" % typed, g.loc(t["sp"]), fn=f.name, key=R + "|all-types")
     errs = error_sites(prog, f)
     ctx.check(guard, R, "enumeration values containing ';' are refused", "", "create_table accepts enumeration values containing ';' (or empty): [\"a;b\",\"c\"] is written as \"a;b;c\" and "
               "reopens as three values", f.loc(), fn=f.name, key=R + "|guard")
